@@ -162,7 +162,7 @@ func toChunk(peer *Peer, index uint32, begin uint32) uint32 {
 func fromChunk(peer *Peer, chunk uint32) (uint32, uint32) {
 	ps := peer.Pieces.PieceSize()
 	index := chunk / (ps / config.ChunkSize)
-	begin := (chunk * config.ChunkSize) % ps
+	begin := uint32((uint64(chunk) * uint64(config.ChunkSize)) % uint64(ps))
 	return index, begin
 }
 
